@@ -304,8 +304,19 @@ macro_rules! grammar_body {
 }
 
 crate::harnesses! {
+    /// partial vs complete INTEGER parser, flags LTC: strings len <= 4 over {0 7 _ x}.
+    /// @prop C11 C13
+    /// @feat format radix_format
+    /// @bound format F_LTC; integer inputs of length <= 4 over {0 7 _ x}
+    /// @fn lexical-parse-integer::algorithm (complete / partial instantiations)
+    /// @fn lexical-util::skip::is_ltc!
+    /// @timeout 1200
+    #[cfg_attr(kani, kani::unwind(8))]
+    fn sep_partial_complete_int_ltc_len4() { pc_int_body!(F_LTC, 4) }
+
     /// partial vs complete INTEGER parser, flags LTC: strings len <= 5 over {0 7 _ x}.
     /// @prop C11 C13
+    /// @tier thorough
     /// @feat format radix_format
     /// @bound format F_LTC; integer inputs of length <= 5 over {0 7 _ x}
     /// @fn lexical-parse-integer::algorithm (complete / partial instantiations)
@@ -314,8 +325,19 @@ crate::harnesses! {
     #[cfg_attr(kani, kani::unwind(8))]
     fn sep_partial_complete_int_ltc() { pc_int_body!(F_LTC, 5) }
 
+    /// partial vs complete INTEGER parser, flags ITC: strings len <= 4 over {0 7 _ x}.
+    /// @prop C11 C13
+    /// @feat format radix_format
+    /// @bound format F_ITC; integer inputs of length <= 4 over {0 7 _ x}
+    /// @fn lexical-parse-integer::algorithm (complete / partial instantiations)
+    /// @fn lexical-util::skip::is_itc!
+    /// @timeout 1200
+    #[cfg_attr(kani, kani::unwind(8))]
+    fn sep_partial_complete_int_itc_len4() { pc_int_body!(F_ITC, 4) }
+
     /// partial vs complete INTEGER parser, flags ITC: strings len <= 5 over {0 7 _ x}.
     /// @prop C11 C13
+    /// @tier thorough
     /// @feat format radix_format
     /// @bound format F_ITC; integer inputs of length <= 5 over {0 7 _ x}
     /// @fn lexical-parse-integer::algorithm (complete / partial instantiations)
@@ -324,8 +346,19 @@ crate::harnesses! {
     #[cfg_attr(kani, kani::unwind(8))]
     fn sep_partial_complete_int_itc() { pc_int_body!(F_ITC, 5) }
 
+    /// partial vs complete INTEGER parser, flags ILC: strings len <= 4 over {0 7 _ x}.
+    /// @prop C11 C13
+    /// @feat format radix_format
+    /// @bound format F_ILC; integer inputs of length <= 4 over {0 7 _ x}
+    /// @fn lexical-parse-integer::algorithm (complete / partial instantiations)
+    /// @fn lexical-util::skip::is_ilc!
+    /// @timeout 1200
+    #[cfg_attr(kani, kani::unwind(8))]
+    fn sep_partial_complete_int_ilc_len4() { pc_int_body!(F_ILC, 4) }
+
     /// partial vs complete INTEGER parser, flags ILC: strings len <= 5 over {0 7 _ x}.
     /// @prop C11 C13
+    /// @tier thorough
     /// @feat format radix_format
     /// @bound format F_ILC; integer inputs of length <= 5 over {0 7 _ x}
     /// @fn lexical-parse-integer::algorithm (complete / partial instantiations)
@@ -354,8 +387,19 @@ crate::harnesses! {
     #[cfg_attr(kani, kani::unwind(8))]
     fn sep_partial_complete_int_lt() { pc_int_body!(F_LT, 5) }
 
+    /// partial vs complete INTEGER parser, flags TC: strings len <= 4 over {0 7 _ x}.
+    /// @prop C11 C13
+    /// @feat format radix_format
+    /// @bound format F_TC; integer inputs of length <= 4 over {0 7 _ x}
+    /// @fn lexical-parse-integer::algorithm (complete / partial instantiations)
+    /// @fn lexical-util::skip::is_tc!
+    /// @timeout 1200
+    #[cfg_attr(kani, kani::unwind(8))]
+    fn sep_partial_complete_int_tc_len4() { pc_int_body!(F_TC, 4) }
+
     /// partial vs complete INTEGER parser, flags TC: strings len <= 5 over {0 7 _ x}.
     /// @prop C11 C13
+    /// @tier thorough
     /// @feat format radix_format
     /// @bound format F_TC; integer inputs of length <= 5 over {0 7 _ x}
     /// @fn lexical-parse-integer::algorithm (complete / partial instantiations)
